@@ -380,6 +380,9 @@ def step (s : Sess) (line : String) : String × Sess :=
   | ["enc_reset"] => let e := s.enc.reset; ("ok | " ++ fmtEnc e, { s with enc := e })
   | ["enc_disable"] => let e := s.enc.disable; ("ok | " ++ fmtEnc e, { s with enc := e })
   | ["enc_enable"] => let e := s.enc.enable; ("ok | " ++ fmtEnc e, { s with enc := e })
+  | ["enc_set_crc"] =>
+    -- `set_crc_calculator(DefaultCrc)`: replaces the calculator, must leave the re-use state alone
+    ("ok | " ++ fmtEnc s.enc, s)
   | ["enc_enable_max", n] =>
     match n.toNat? with
     | some n => let e := s.enc.enableMax n; ("ok | " ++ fmtEnc e, { s with enc := e })
